@@ -188,7 +188,7 @@ Definition nan_free_b (r : raw) (start : tv) : bool :=
   tv_finite start && match r with R1 ts => forallb tv_finite ts | R2 => true end.
 
 (* ------------------------------------------------------------------------------------------------ *)
-(* 5. the detector's buckets                                                                          *)
+(* 5. the detector's buckets, and the pieces of state each container keeps its data in                *)
 
 Inductive bucket := Scene | Photon | Charge | Pixel | Signal | Image.
 Definition bucket_eqb (a b : bucket) : bool :=
@@ -199,8 +199,53 @@ Definition bucket_eqb (a b : bucket) : bool :=
 Definition bmem (b : bucket) (l : list bucket) : bool := existsb (bucket_eqb b) l.
 Definition all_buckets := [Scene; Photon; Charge; Pixel; Signal; Image].
 
-(* Detector.empty(reset): the containers emptied unconditionally and those emptied only `if reset:` *)
-Record empty_table := { e_always : list bucket; e_if_reset : list bucket }.
+(* the attributes that hold a container's data: one per container (Scene._source, Photon._array,
+   Pixel/Signal/Image._array), except Charge, which keeps a 2-D array (_array) AND a dataframe of particles
+   (_frame): models deposit charge in either form (add_charge_array / add_charge, add_charge_dataframe) *)
+Inductive piece := PScene | PPhoton | PChargeArr | PChargeFrame | PPixel | PSignal | PImage.
+Definition owner (p : piece) : bucket :=
+  match p with
+  | PScene => Scene | PPhoton => Photon | PChargeArr | PChargeFrame => Charge
+  | PPixel => Pixel | PSignal => Signal | PImage => Image
+  end.
+Definition all_pieces := [PScene; PPhoton; PChargeArr; PChargeFrame; PPixel; PSignal; PImage].
+
+(* <Container>.empty() as coded (regenerated from the source): a sequence of if / elif / else chains whose
+   branches re-initialise pieces of the container; an unconditional statement is the chain [(CTrue, ..)].
+   The tests only ask whether a piece currently holds something:
+     CHolds p      `self._array is not None` / `self._array.any()` / `not self._frame.empty`
+     CHoldsNot p   the negations                                                                        *)
+Inductive ccond := CTrue | CHolds (p : piece) | CHoldsNot (p : piece).
+Definition chain := list (ccond * list piece).       (* first branch whose test holds is executed *)
+Definition cprog := list chain.                      (* executed in sequence *)
+
+(* which readouts make the per-step `detector.empty(<flag>)` of the run loop a full reset (pixel included):
+   LIfDestructive = `not detector.non_destructive_readout` (as it should be), the others are what a changed loop
+   could say *)
+Inductive reset_policy := LIfDestructive | LIfNonDestructive | LAlways | LNever.
+Definition loop_reset (p : reset_policy) (nd : bool) : bool :=
+  match p with LIfDestructive => negb nd | LIfNonDestructive => nd | LAlways => true | LNever => false end.
+Definition reset_policy_eqb (a b : reset_policy) : bool :=
+  match a, b with
+  | LIfDestructive, LIfDestructive | LIfNonDestructive, LIfNonDestructive | LAlways, LAlways | LNever, LNever => true
+  | _, _ => false
+  end.
+
+(* Detector.empty(reset): the containers emptied unconditionally and those emptied only `if reset:`; what
+   emptying each container does to its pieces; whether reading Charge.array stores the array derived
+   from the particles back into _array (run_pipeline reads it when it extracts the result of a step);
+   and how run_pipeline uses it: is there a full `detector.empty()` between set_readout and the loop, which
+   per-step reset flag does the loop pass, and does the deprecated copy of the loop do the same *)
+Record empty_table := { e_always : list bucket; e_if_reset : list bucket;
+                        e_scene : cprog; e_photon : cprog; e_charge : cprog; e_pixel : cprog;
+                        e_signal : cprog; e_image : cprog;
+                        e_read_stores : bool;
+                        e_init_reset : bool; e_loop_reset : reset_policy; e_old_loop_same : bool }.
+Definition e_prog (E : empty_table) (b : bucket) : cprog :=
+  match b with
+  | Scene => e_scene E | Photon => e_photon E | Charge => e_charge E
+  | Pixel => e_pixel E | Signal => e_signal E | Image => e_image E
+  end.
 
 (* what the models can read from the detector during one step *)
 Record clock := { c_time : tv; c_step : tv; c_abs : tv; c_count : Z; c_first : bool; c_last : bool }.
@@ -254,24 +299,68 @@ Section Lifecycle.
   Variable A : Type.          (* an array of the detector's shape *)
   Variable zero : A.          (* np.zeros(shape) *)
 
-  (* None = empty / uninitialised *)
-  Record det := { scene : option A; photon : option A; charge : option A;
+  (* None = empty / uninitialised (charge array: all zero; charge frame: no particle) *)
+  Record det := { scene : option A; photon : option A; charge : option A; cframe : option A;
                   pixel : option A; signal : option A; image : option A }.
 
-  Definition get (b : bucket) (d : det) : option A :=
-    match b with Scene => scene d | Photon => photon d | Charge => charge d
-            | Pixel => pixel d | Signal => signal d | Image => image d end.
+  Definition getp (p : piece) (d : det) : option A :=
+    match p with PScene => scene d | PPhoton => photon d | PChargeArr => charge d | PChargeFrame => cframe d
+            | PPixel => pixel d | PSignal => signal d | PImage => image d end.
 
-  (* Pixel.empty() stores zeros; every other empty() stores nothing *)
-  Definition cleared (b : bucket) : option A := match b with Pixel => Some zero | _ => None end.
+  Definition setp (p : piece) (v : option A) (d : det) : det :=
+    match p with
+    | PScene => {| scene := v; photon := photon d; charge := charge d; cframe := cframe d; pixel := pixel d;
+                   signal := signal d; image := image d |}
+    | PPhoton => {| scene := scene d; photon := v; charge := charge d; cframe := cframe d; pixel := pixel d;
+                    signal := signal d; image := image d |}
+    | PChargeArr => {| scene := scene d; photon := photon d; charge := v; cframe := cframe d; pixel := pixel d;
+                       signal := signal d; image := image d |}
+    | PChargeFrame => {| scene := scene d; photon := photon d; charge := charge d; cframe := v; pixel := pixel d;
+                         signal := signal d; image := image d |}
+    | PPixel => {| scene := scene d; photon := photon d; charge := charge d; cframe := cframe d; pixel := v;
+                   signal := signal d; image := image d |}
+    | PSignal => {| scene := scene d; photon := photon d; charge := charge d; cframe := cframe d; pixel := pixel d;
+                    signal := v; image := image d |}
+    | PImage => {| scene := scene d; photon := photon d; charge := charge d; cframe := cframe d; pixel := pixel d;
+                   signal := signal d; image := v |}
+    end.
 
-  Definition clr (E : empty_table) (reset : bool) (b : bucket) (v : option A) : option A :=
-    if bmem b (e_always E) || (reset && bmem b (e_if_reset E)) then cleared b else v.
+  (* what re-initialising a piece stores: Pixel.empty() stores zeros; every other one stores nothing *)
+  Definition cleared (p : piece) : option A := match p with PPixel => Some zero | _ => None end.
 
+  Definition holds (p : piece) (d : det) : bool := match getp p d with Some _ => true | None => false end.
+
+  Definition cond_holds (c : ccond) (d : det) : bool :=
+    match c with CTrue => true | CHolds p => holds p d | CHoldsNot p => negb (holds p d) end.
+
+  Definition reset_pieces (ps : list piece) (d : det) : det := fold_left (fun d p => setp p (cleared p) d) ps d.
+
+  Fixpoint run_chain (ch : chain) (d : det) : det :=
+    match ch with
+    | [] => d
+    | (c, ps) :: rest => if cond_holds c d then reset_pieces ps d else run_chain rest d
+    end.
+
+  (* <Container>.empty() *)
+  Definition run_cprog (pr : cprog) (d : det) : det := fold_left (fun d ch => run_chain ch d) pr d.
+
+  Definition emptied (E : empty_table) (reset : bool) (b : bucket) : bool :=
+    bmem b (e_always E) || (reset && bmem b (e_if_reset E)).
+
+  Definition empty_bucket (E : empty_table) (reset : bool) (d : det) (b : bucket) : det :=
+    if emptied E reset b then run_cprog (e_prog E b) d else d.
+
+  (* Detector.empty(reset) *)
   Definition det_empty (E : empty_table) (reset : bool) (d : det) : det :=
-    {| scene := clr E reset Scene (scene d); photon := clr E reset Photon (photon d);
-       charge := clr E reset Charge (charge d); pixel := clr E reset Pixel (pixel d);
-       signal := clr E reset Signal (signal d); image := clr E reset Image (image d) |}.
+    fold_left (empty_bucket E reset) all_buckets d.
+
+  (* run_pipeline extracts the result of a step from the containers after the last model; reading
+     Charge.array with particles in the dataframe stores the array derived from them into _array (the array
+     is a view of the dataframe's content: the same abstract content) *)
+  Definition det_extract (E : empty_table) (d : det) : det :=
+    if e_read_stores E
+    then match cframe d with Some f => setp PChargeArr (Some f) d | None => d end
+    else d.
 
   (* what a probe placed first / last in the step sees *)
   Record observation := { o_clock : clock; o_begin : det; o_end : det }.
@@ -287,10 +376,14 @@ Section Lifecycle.
     | (t, st) :: rest =>
         let ck := {| c_time := t; c_step := st; c_abs := tadd start t; c_count := i;
                      c_first := Z.eqb i 0%Z; c_last := Z.eqb i (n - 1)%Z |} in
-        let d1 := det_empty E (negb nd) d in          (* detector.empty(is_destructive_readout) *)
+        let d1 := det_empty E (loop_reset (e_loop_reset E) nd) d in   (* detector.empty(is_destructive_readout) *)
         let d2 := prog ck d1 in                        (* processor.run_pipeline() *)
-        {| o_clock := ck; o_begin := d1; o_end := d2 |} :: run_loop E prog nd start n (i + 1)%Z rest d2
+        {| o_clock := ck; o_begin := d1; o_end := d2 |}
+          :: run_loop E prog nd start n (i + 1)%Z rest (det_extract E d2)      (* _extract_datatree_2d *)
     end.
+
+  (* `detector.empty()` between set_readout and the loop *)
+  Definition det_init (E : empty_table) (d0 : det) : det := if e_init_reset E then det_empty E true d0 else d0.
 
   Inductive outcome :=
   | Rejected (stage : Z)                (* 0 constructor, 1 setter / replace, 2 set_readout at run start;
@@ -306,7 +399,7 @@ Section Lifecycle.
         if guards_pass (g_rp G) (r_start ro) (R1 ts)
         then let sts := steps (r_start ro) ts in
              Ran (run_loop E prog (r_nd ro) (r_start ro) (Z.of_nat (length sts)) 0%Z (combine ts sts)
-                           (det_empty E true d0))
+                           (det_init E d0))
         else Rejected 2
     | R2 => Rejected 2      (* ndim guard, or np.concatenate in calculate_steps *)
     end.
@@ -337,9 +430,9 @@ Section Lifecycle.
     | [] => ([], (d, p))
     | (t, st) :: rest =>
         let p1 := rp_tick p t st i in
-        let d1 := det_empty E (negb (rp_nd p1)) d in
+        let d1 := det_empty E (loop_reset (e_loop_reset E) (rp_nd p1)) d in
         let d2 := prog (rp_clock p1) d1 in
-        let (os, fin) := obj_loop E prog (i + 1)%Z rest p1 d2 in
+        let (os, fin) := obj_loop E prog (i + 1)%Z rest p1 (det_extract E d2) in
         ({| o_clock := rp_clock p1; o_begin := d1; o_end := d2 |} :: os, fin)
     end.
 
@@ -351,7 +444,7 @@ Section Lifecycle.
     | None => (Rejected 2, st)
     | Some p =>
         let (os, fin) := obj_loop E prog 0%Z (combine (rp_times p) (rp_steps p)) p
-                                  (det_empty E true (ds_det st)) in
+                                  (det_init E (ds_det st)) in
         (Ran os, {| ds_det := fst fin; ds_rp := Some (snd fin) |})
     end.
 
@@ -384,7 +477,8 @@ Section Lifecycle.
     end.
 
   Definition blank : det :=
-    {| scene := None; photon := None; charge := None; pixel := None; signal := None; image := None |}.
+    {| scene := None; photon := None; charge := None; cframe := None; pixel := None; signal := None;
+       image := None |}.
 
   (* ---------------------------------------------------------------------------------------------- *)
   (* closed forms = the right-hand side of the theorems                                              *)
@@ -401,7 +495,7 @@ Section Lifecycle.
   (* bucket state a step must start from: everything empty; pixel zero in destructive mode and at step
      0, otherwise what the previous step left *)
   Definition spec_begin (nd : bool) (prev_end : option det) : det :=
-    {| scene := None; photon := None; charge := None;
+    {| scene := None; photon := None; charge := None; cframe := None;
        pixel := match prev_end with
                 | Some p => if nd then pixel p else Some zero
                 | None => Some zero
@@ -409,8 +503,9 @@ Section Lifecycle.
        signal := None; image := None |}.
 End Lifecycle.
 
-Arguments scene {A}. Arguments photon {A}. Arguments charge {A}.
+Arguments scene {A}. Arguments photon {A}. Arguments charge {A}. Arguments cframe {A}.
 Arguments pixel {A}. Arguments signal {A}. Arguments image {A}.
+Arguments getp {A}. Arguments setp {A}.
 Arguments o_clock {A}. Arguments o_begin {A}. Arguments o_end {A}.
 Arguments Rejected {A}. Arguments Ran {A}.
 Arguments ds_det {A}. Arguments ds_rp {A}.
@@ -427,27 +522,104 @@ Definition rp_complete (G : guard_table) : bool :=
 Definition rp_complete_nan (G : guard_table) : bool :=
   gmem GFirstNonZero (g_rp G) && gmem GStartLtFirst (g_rp G) && gmem GIncreasing (g_rp G).
 
+(* ---- does <Container>.empty() re-initialise every piece the container holds, whatever it holds? ----
+   The tests of a container program only ask whether a piece holds something, so the program can be run on
+   the SHAPE of a state: per piece, "held nothing when empty() was called" (SNone), "held something" (SSome),
+   "re-initialised by the program" (SReset).  [cprog_ok] runs it on all 2^7 initial shapes and asks that every
+   piece of the container ends re-initialised -- or, for a piece whose empty value is None, still empty -- and
+   that no other piece was touched.  Proofs/ExposureEmpty.v: [cprog_ok] decides the behaviour on every state. *)
+Inductive sym := SNone | SSome | SReset.
+Record sdet := { s_scene : sym; s_photon : sym; s_carr : sym; s_cframe : sym; s_pixel : sym; s_signal : sym;
+                 s_image : sym }.
+Definition sget (p : piece) (s : sdet) : sym :=
+  match p with PScene => s_scene s | PPhoton => s_photon s | PChargeArr => s_carr s | PChargeFrame => s_cframe s
+          | PPixel => s_pixel s | PSignal => s_signal s | PImage => s_image s end.
+Definition sset (p : piece) (v : sym) (s : sdet) : sdet :=
+  match p with
+  | PScene => {| s_scene := v; s_photon := s_photon s; s_carr := s_carr s; s_cframe := s_cframe s;
+                 s_pixel := s_pixel s; s_signal := s_signal s; s_image := s_image s |}
+  | PPhoton => {| s_scene := s_scene s; s_photon := v; s_carr := s_carr s; s_cframe := s_cframe s;
+                  s_pixel := s_pixel s; s_signal := s_signal s; s_image := s_image s |}
+  | PChargeArr => {| s_scene := s_scene s; s_photon := s_photon s; s_carr := v; s_cframe := s_cframe s;
+                     s_pixel := s_pixel s; s_signal := s_signal s; s_image := s_image s |}
+  | PChargeFrame => {| s_scene := s_scene s; s_photon := s_photon s; s_carr := s_carr s; s_cframe := v;
+                       s_pixel := s_pixel s; s_signal := s_signal s; s_image := s_image s |}
+  | PPixel => {| s_scene := s_scene s; s_photon := s_photon s; s_carr := s_carr s; s_cframe := s_cframe s;
+                 s_pixel := v; s_signal := s_signal s; s_image := s_image s |}
+  | PSignal => {| s_scene := s_scene s; s_photon := s_photon s; s_carr := s_carr s; s_cframe := s_cframe s;
+                  s_pixel := s_pixel s; s_signal := v; s_image := s_image s |}
+  | PImage => {| s_scene := s_scene s; s_photon := s_photon s; s_carr := s_carr s; s_cframe := s_cframe s;
+                 s_pixel := s_pixel s; s_signal := s_signal s; s_image := v |}
+  end.
+(* a re-initialised pixel array holds zeros (is not None); every other re-initialised piece holds nothing *)
+Definition sym_holds (p : piece) (v : sym) : bool :=
+  match v with SNone => false | SSome => true | SReset => match p with PPixel => true | _ => false end end.
+Definition scond (c : ccond) (s : sdet) : bool :=
+  match c with CTrue => true | CHolds p => sym_holds p (sget p s) | CHoldsNot p => negb (sym_holds p (sget p s)) end.
+Definition sreset_pieces (ps : list piece) (s : sdet) : sdet := fold_left (fun s p => sset p SReset s) ps s.
+Fixpoint srun_chain (ch : chain) (s : sdet) : sdet :=
+  match ch with
+  | [] => s
+  | (c, ps) :: rest => if scond c s then sreset_pieces ps s else srun_chain rest s
+  end.
+Definition srun (pr : cprog) (s : sdet) : sdet := fold_left (fun s ch => srun_chain ch s) pr s.
+
+Definition sym_eqb (a b : sym) : bool :=
+  match a, b with SNone, SNone | SSome, SSome | SReset, SReset => true | _, _ => false end.
+Definition final_ok (b : bucket) (s0 s : sdet) : bool :=
+  forallb (fun p => if bucket_eqb (owner p) b
+                    then match sget p s with
+                         | SReset => true
+                         | SNone => match p with PPixel => false | _ => true end
+                         | SSome => false
+                         end
+                    else sym_eqb (sget p s) (sget p s0)) all_pieces.
+Definition two := [SNone; SSome].
+Definition cprog_ok (b : bucket) (pr : cprog) : bool :=
+  forallb (fun a1 => forallb (fun a2 => forallb (fun a3 => forallb (fun a4 => forallb (fun a5 =>
+  forallb (fun a6 => forallb (fun a7 =>
+    let s0 := {| s_scene := a1; s_photon := a2; s_carr := a3; s_cframe := a4; s_pixel := a5; s_signal := a6;
+                 s_image := a7 |} in
+    final_ok b s0 (srun pr s0)) two) two) two) two) two) two) two.
+
+(* Detector.empty(reset) empties scene / photon / charge / signal / image always and pixel exactly `if reset`,
+   every container's empty() re-initialises all of the container, unconditionally in effect, and the run loop
+   (and its deprecated copy) resets the detector once before the first step and passes `is destructive` as the
+   per-step reset flag *)
 Definition empty_table_ok (E : empty_table) : bool :=
   forallb (fun b => bmem b (e_always E)) [Scene; Photon; Charge; Signal; Image]
-  && negb (bmem Pixel (e_always E)) && bmem Pixel (e_if_reset E).
+  && negb (bmem Pixel (e_always E)) && bmem Pixel (e_if_reset E)
+  && forallb (fun b => cprog_ok b (e_prog E b)) all_buckets
+  && e_init_reset E && reset_policy_eqb (e_loop_reset E) LIfDestructive && e_old_loop_same E.
 
 (* ------------------------------------------------------------------------------------------------ *)
 (* 6. executable instance used by the correspondence leg: constant frames, A := Z                     *)
 
-Inductive wop := WSet (b : bucket) (v : Z) | WAdd (b : bucket) (v : Z).
+(* WAdd Charge = Charge.add_charge_array;  WPart = Charge.add_charge / add_charge_dataframe (particles, here
+   the same number in every pixel) *)
+Inductive wop := WSet (b : bucket) (v : Z) | WAdd (b : bucket) (v : Z) | WPart (v : Z).
 
-Definition upd (b : bucket) (f : option Z -> option Z) (d : det Z) : det Z :=
-  {| scene := if bucket_eqb b Scene then f (scene d) else scene d;
-     photon := if bucket_eqb b Photon then f (photon d) else photon d;
-     charge := if bucket_eqb b Charge then f (charge d) else charge d;
-     pixel := if bucket_eqb b Pixel then f (pixel d) else pixel d;
-     signal := if bucket_eqb b Signal then f (signal d) else signal d;
-     image := if bucket_eqb b Image then f (image d) else image d |}.
+Definition main_piece (b : bucket) : piece :=
+  match b with Scene => PScene | Photon => PPhoton | Charge => PChargeArr | Pixel => PPixel | Signal => PSignal
+          | Image => PImage end.
+Definition addz (o : option Z) (v : Z) : option Z := Some (match o with Some x => x + v | None => v end)%Z.
 
 Definition apply_wop (d : det Z) (w : wop) : det Z :=
   match w with
-  | WSet b v => upd b (fun _ => Some v) d
-  | WAdd b v => upd b (fun o => Some (match o with Some x => x + v | None => v end)%Z) d
+  | WSet b v => setp (main_piece b) (Some v) d
+  | WAdd Charge v =>
+      (* onto the 2-D array while there is no particle; otherwise converted into particles (the array stays) *)
+      match cframe d with
+      | None => setp PChargeArr (addz (charge d) v) d
+      | Some f => setp PChargeFrame (Some (f + v)%Z) d
+      end
+  | WAdd b v => setp (main_piece b) (addz (getp (main_piece b) d) v) d
+  | WPart v =>
+      (* the first particles take the content of the 2-D array along (the array itself stays as it is) *)
+      match cframe d with
+      | None => setp PChargeFrame (addz (charge d) v) d
+      | Some f => setp PChargeFrame (Some (f + v)%Z) d
+      end
   end.
 
 (* the writer probes index their plan with detector.pipeline_count *)
@@ -458,7 +630,7 @@ Definition oz_eqb (a b : option Z) : bool :=
   match a, b with Some x, Some y => Z.eqb x y | None, None => true | _, _ => false end.
 Definition det_eqb (a b : det Z) : bool :=
   oz_eqb (scene a) (scene b) && oz_eqb (photon a) (photon b) && oz_eqb (charge a) (charge b)
-  && oz_eqb (pixel a) (pixel b) && oz_eqb (signal a) (signal b) && oz_eqb (image a) (image b).
+  && oz_eqb (cframe a) (cframe b) && oz_eqb (pixel a) (pixel b) && oz_eqb (signal a) (signal b) && oz_eqb (image a) (image b).
 Definition clock_eqb (a b : clock) : bool :=
   tv_eqb (c_time a) (c_time b) && tv_eqb (c_step a) (c_step b) && tv_eqb (c_abs a) (c_abs b)
   && Z.eqb (c_count a) (c_count b) && Bool.eqb (c_first a) (c_first b) && Bool.eqb (c_last a) (c_last b).
@@ -472,8 +644,8 @@ Fixpoint list_eqb {X} (e : X -> X -> bool) (a b : list X) : bool :=
   end.
 
 (* short constructors for the harness-written case files *)
-Definition mkdet (sc ph ch px sg im : option Z) : det Z :=
-  {| scene := sc; photon := ph; charge := ch; pixel := px; signal := sg; image := im |}.
+Definition mkdet (sc ph ch cf px sg im : option Z) : det Z :=
+  {| scene := sc; photon := ph; charge := ch; cframe := cf; pixel := px; signal := sg; image := im |}.
 Definition mkobs (t st ab : tv) (cnt : Z) (f l : bool) (b e : det Z) : observation Z :=
   {| o_clock := {| c_time := t; c_step := st; c_abs := ab; c_count := cnt; c_first := f; c_last := l |};
      o_begin := b; o_end := e |}.
@@ -567,3 +739,14 @@ Definition mismatches (G : guard_table) (E : empty_table) (SR : sr_policy) (cs :
 Definition violations (cs : list c02_case) : list Z := indices_where case_violates cs 0%Z.
 Definition after_differs (G : guard_table) (E : empty_table) (SR : sr_policy) (cs : list c02_case) : list Z :=
   indices_where (case_after_differs G E SR) cs 0%Z.
+
+(* differential judgement used when the correspondence breaks: the same writes made (a) in step i of a run and
+   (b) in the only step of a run on a fresh detector must leave the same content in every container that the
+   step started empty -- all of them, except the pixel array of a non-destructive readout.  Each item: mode, the
+   observed end of the step, the observed end of its control. *)
+Definition ends_differ (nd : bool) (a b : det Z) : bool :=
+  negb (oz_eqb (scene a) (scene b) && oz_eqb (photon a) (photon b) && oz_eqb (charge a) (charge b)
+        && oz_eqb (cframe a) (cframe b) && (nd || oz_eqb (pixel a) (pixel b))
+        && oz_eqb (signal a) (signal b) && oz_eqb (image a) (image b)).
+Definition history_dependent (l : list (bool * (det Z * det Z))) : list Z :=
+  indices_where (fun x => ends_differ (fst x) (fst (snd x)) (snd (snd x))) l 0%Z.
